@@ -2,6 +2,9 @@ module verif/harness
 
 go 1.22
 
-require github.com/craterdog/go-collection-framework/v4 v4.0.0
+require (
+	github.com/anishathalye/porcupine v1.3.0
+	github.com/craterdog/go-collection-framework/v4 v4.0.0
+)
 
 replace github.com/craterdog/go-collection-framework/v4 => /repo/v4
